@@ -925,13 +925,13 @@ func ruleSEMI2(c *Ctx) {
 	// the three answers
 	type ans struct{ key, cond, val, good, bad string }
 	for _, a := range []ans{
-		{"lookahead/line-comment", "s.ch=='/'", "true", "a //-comment contains the line end", "a //-comment is not answered with true"},
-		{"lookahead/newline-or-eof", "s.ch=='\\n'", "true", "newline or EOF after the comments: true", "newline / EOF after a comment is not answered with true"},
-		{"lookahead/other-token", "s.ch!='/'", "false", "another token on the line: false", "a non-comment token after the comment is not answered with false"},
+		{"lookahead/line-comment", "recv.ch=='/'", "true", "a //-comment contains the line end", "a //-comment is not answered with true"},
+		{"lookahead/newline-or-eof", "recv.ch=='\\n'", "true", "newline or EOF after the comments: true", "newline / EOF after a comment is not answered with true"},
+		{"lookahead/other-token", "recv.ch!='/'", "false", "another token on the line: false", "a non-comment token after the comment is not answered with false"},
 	} {
 		found := containsNode(loop.Body, func(n ast.Node) bool {
 			is, ok := n.(*ast.IfStmt)
-			if !ok || !strings.Contains(strings.ReplaceAll(w.Src(is.Cond), " ", ""), a.cond) {
+			if !ok || !strings.Contains(w.SrcRecv(fd, is.Cond), a.cond) {
 				return false
 			}
 			return containsNode(is.Body, func(m ast.Node) bool {
